@@ -351,7 +351,7 @@ theorem decomposeChord_spec (w : Waiting) (g : ChordsGroup) (q : List Queued) (a
         (((g.getKeys w.coord).getD 0) :: C09.newMasks g ((g.getKeys w.coord).getD 0) (C09.participants w g q)).length 0).map
         (C09.entryOf w g ((C09.releasedBy g (C09.scanRest w g q)).getD w.coord) q
           (((g.getKeys w.coord).getD 0) :: C09.newMasks g ((g.getKeys w.coord).getD 0) (C09.participants w g q))
-          (w.delay + w.ticks))) := by
+          (min (w.delay + w.ticks) U16_MAX))) := by
     unfold decomposeChord
     simp only [C09.decomposeFold_closed]
     rw [C09.decomposeLoop_eq]
